@@ -44,7 +44,7 @@ from ..util import SeriesContainer
 from ..exceptions import NumpyException
 from .medoids import Medoids
 from ..dtw_barycenter import dba_loop
-from .. import dtw, dtw_ndim
+from .. import dtw, dtw_ndim, util_numpy
 
 
 def _distance_with_params(t):
@@ -71,7 +71,7 @@ def _distance_c_with_params(t):
     series, means, dists_options = t
     min_i, min_d = -1, float('inf')
     for i, mean in enumerate(means):
-        d = dtw_cc.distance(series, mean, **dists_options)
+        d = dtw_cc.distance(util_numpy.verify_np_array(series), util_numpy.verify_np_array(mean), **dists_options)
         if d < min_d:
             min_d, min_i = d, i
     return min_i, min_d
@@ -81,7 +81,7 @@ def _distance_ndim_c_with_params(t):
     series, means, dists_options = t
     min_i, min_d = -1, float('inf')
     for i, mean in enumerate(means):
-        d = dtw_cc.distance_ndim(series, mean, **dists_options)
+        d = dtw_cc.distance_ndim(util_numpy.verify_np_array(series), util_numpy.verify_np_array(mean), **dists_options)
         if d < min_d:
             min_d, min_i = d, i
     return min_i, min_d
